@@ -196,7 +196,16 @@ pub trait TaggedCborSerializable: AsCborValue {
 
     /// Create an object instance from serialized CBOR data in a slice, expecting an initial
     /// tag value.
-    fn from_tagged_slice(slice: &[u8]) -> Result<Self> {
+    fn from_tagged_slice(slice: &[u8]) ->« (r:» Result<Self>«)
+        ensures
+            match parse_all(slice@) {
+                Some(v) => match v {
+                    Value::Tag(t, inner) => if t == Self::TAG { Self::dec_rel(*inner, r) } else { r matches Err(e) && e is UnexpectedItem },
+                    _ => r matches Err(e) && e is UnexpectedItem,
+                },
+                None => r is Err,
+            },» {«
+        broadcast use axiom_question_mark_uses_from;»
         let (t, v) = read_to_value(slice)?.try_as_tag()?;
         if t != Self::TAG {
             return Err(CoseError::UnexpectedItem("tag", "other tag"));
@@ -206,7 +215,11 @@ pub trait TaggedCborSerializable: AsCborValue {
 
     /// Serialize this object to a vector, including initial tag, consuming the object along the
     /// way.
-    fn to_tagged_vec(self) -> Result<Vec<u8>> {
+    fn to_tagged_vec(self) ->« (r:» Result<Vec<u8>>«)
+        ensures
+            r matches Ok(d) ==> exists |v: Value| #[trigger] self.enc_rel(Ok::<Value, CoseError>(v)) && d@ == crate::vprelude::enc(CV::Tag(Self::TAG, Box::new(vv(v)))),
+            r matches Err(e) ==> self.enc_rel(Err::<Value, CoseError>(e)),» {«
+        broadcast use axiom_question_mark_uses_from;»
         let mut data = Vec::new();
         crate::vprelude::into_writer_vec(
             &Value::Tag(Self::TAG, Box::new(self.to_cbor_value()?)),
